@@ -1249,7 +1249,9 @@ class Executor(Generic[TContext]):
             raise TypeError(msg)
 
         streamed_field_details_list: FieldDetailsList = [
-            FieldDetails(field_details.node, None)
+            FieldDetails(
+                field_details.node, None, field_details.fragment_variable_values
+            )
             for field_details in field_details_list
         ]
 
